@@ -2,6 +2,7 @@
 
 use super::c01::REPO_GDS;
 use crate::gen::gdsgen::*;
+use crate::refs::gdsreal::encode_ref;
 use crate::refs::gdsstream::*;
 use crate::rt::*;
 use gds21::GdsLibrary;
@@ -221,6 +222,8 @@ impl Prop for C10 {
             GenSpec::random("byte-flips", tier.pick(200, 10_000)),
             GenSpec::random("noise", tier.pick(200, 10_000)),
             GenSpec::enumerated("scaling", tier.pick(8, 11)),
+            // single records between 32 KiB and the 65534-byte limit (what a foreign writer may legally produce): accepted ones must be writable again
+            GenSpec::random("big-records", tier.pick(24, 400)),
             // interpreter-sized cases for the Miri leg (tools/legs.sh runs them one by one through `lvh one`); not part of the native plan
             GenSpec::random("miri-sample", 0),
         ]
@@ -256,6 +259,21 @@ impl Prop for C10 {
                     }
                     _ => cx.count("repo_files_missing"),
                 }
+            }
+            "big-records" => {
+                let (ast, what) = big_record_lib(&mut cx.rng);
+                cx.count(&format!("big_{}_records", what));
+                let e = encode(&ast, &EncOpts::default());
+                cx.nontrivial(crate::rt::prng::byteshash(&e.out));
+                let mut st = Stats::default();
+                self.probe(cx, &e.out, false, "big-record", &mut st);
+                cx.count_n("big_record_streams_accepted", st.ok);
+                cx.count_n("big_record_streams_rejected", st.err);
+                // and cut inside / at the edges of the big record
+                for c in [e.out.len() - 1, e.out.len() - 4, e.out.len() / 2, 40000.min(e.out.len() - 5)] {
+                    self.probe(cx, &e.out[..c], true, "big-record", &mut st);
+                }
+                cx.sample(|| json!({"big_record_stream_bytes": e.out.len()}));
             }
             "faults-gen" => {
                 let (bytes, offs) = self.seed_stream(cx);
